@@ -18,7 +18,9 @@ P(k, n) == [k |-> k, n |-> n]
 PrefixItems == {P("blank", 1), P("slc", 1), P("blk1", 1), P("blk2", 2), P("blk3", 3), P("cmtwrap", 2), P("splice2", 2), P("splice3", 3),
                 P("def", 1), P("defspl", 2), P("skip2", 4), P("take1", 3), P("ifdefU", 3), P("use", 1), P("inc3n", 1), P("inc2x", 1), P("incasm", 1),
                 \* headers whose last line has no newline and emits nothing: the #endif of an include guard, a comment
-                P("inc_guard", 1), P("inc_cmt", 1)}
+                P("inc_guard", 1), P("inc_cmt", 1),
+                \* a header whose last line is itself an #include of a file without final newline (the outer one with and without its own)
+                P("inc_nest", 1), P("inc_nestn", 1)}
 Er(k, n, lo, hi) == [k |-> k, n |-> n, lo |-> lo, hi |-> hi]
 ErrorItems == {Er("hash_error", 1, 0, 0), Er("unknown_dir", 1, 0, 0), Er("unterminated", 1, 0, 0), Er("endif", 1, 0, 0), Er("noinclude", 1, 0, 0),
                Er("pest", 1, 0, 0), Er("pest_spliced", 2, 0, 1), Er("unknown_id", 3, 1, 1), Er("dupvar", 2, 1, 1), Er("break_outside", 3, 1, 1),
